@@ -3,8 +3,8 @@ CONSTANTS
   WW = {"b"}
   Kinds = {"ready", "io"}
   TokModes = {"no", "slow", "fast"}
-  MaxPW = 2
-  MaxFill = 2
+  MaxPW = 1
+  MaxFill = 1
   AllowShut = TRUE
   Eager = FALSE
   Strict = FALSE
